@@ -638,7 +638,7 @@ pub const RAW_SIZES: [usize; 4] = [300, 9_000, 70_000, 150_000];
 /// sender has been pending three times in a row, then everything)
 pub const RAW_DRAINS: [usize; 4] = [0, 4096, 65_536, usize::MAX];
 
-fn raw_wire_with<R: Rt>(sizes: &[usize], drain: usize, small: bool) -> Result<u64, (String, String)> {
+fn raw_wire_with<R: Rt>(sizes: &[usize], drain: usize, small: bool, abandon: Option<(usize, usize)>) -> Result<u64, (String, String)> {
     use std::io::Read;
     let rt = R::new();
     let (sa, mut peer) = small_pair(small);
@@ -668,7 +668,7 @@ fn raw_wire_with<R: Rt>(sizes: &[usize], drain: usize, small: bool) -> Result<u6
     };
     let describe = |got: &Vec<u8>| {
         let at = got.iter().zip(expect.iter()).position(|(a, b)| a != b).unwrap_or(got.len().min(expect.len()));
-        format!("message sizes {sizes:?}, peer takes {} bytes per pending poll, {} socket buffers: the peer read {} bytes, serde_json's encodings + NULs are {} bytes, first difference at offset {at}", if drain == usize::MAX { "all".to_string() } else { drain.to_string() }, if small { "smallest" } else { "default" }, got.len(), expect.len())
+        format!("message sizes {sizes:?}{}, peer takes {} bytes per pending poll, {} socket buffers: the peer read {} bytes, serde_json's encodings + NULs are {} bytes, first difference at offset {at}", abandon.map(|(m, k)| format!(", the send of message #{m} abandoned at its pending poll #{k} (what it had not written yet goes out with the next send / the final flush)")).unwrap_or_default(), if drain == usize::MAX { "all".to_string() } else { drain.to_string() }, if small { "smallest" } else { "default" }, got.len(), expect.len())
     };
     for (k, m) in msgs.iter().enumerate() {
         let mut fut: SendFut = Box::pin(unsafe { (*(&mut w as *mut WriteConnection<<R::Sock as Socket>::WriteHalf>)).send_call(&*(m as *const Call<Pay>)) });
@@ -685,6 +685,10 @@ fn raw_wire_with<R: Rt>(sizes: &[usize], drain: usize, small: bool) -> Result<u6
                 Poll::Ready(Err(e)) => return Err(("sockets:send-failed".into(), format!("send #{k}: {e:?}; {}", describe(&got)))),
                 Poll::Pending => {
                     pendings += 1;
+                    if abandon == Some((k, pendings)) {
+                        // the caller gives up on this send (a timeout, the losing arm of a select)
+                        break;
+                    }
                     if drain == 0 {
                         if pendings >= 3 {
                             take(&mut peer, &mut got, usize::MAX);
@@ -693,6 +697,24 @@ fn raw_wire_with<R: Rt>(sizes: &[usize], drain: usize, small: bool) -> Result<u6
                         take(&mut peer, &mut got, drain);
                     }
                 }
+            }
+        }
+        drop(fut);
+    }
+    if abandon.is_some() {
+        // whatever is still pending goes out with a final flush
+        let mut fut: SendFut = Box::pin(unsafe { (*(&mut w as *mut WriteConnection<<R::Sock as Socket>::WriteHalf>)).flush() });
+        let mut guard = 0usize;
+        loop {
+            guard += 1;
+            if guard > 1_000_000 {
+                return Err(("sockets:no-progress".into(), format!("final flush: {}", describe(&got))));
+            }
+            rt.turn();
+            match poll_once(fut.as_mut()) {
+                Poll::Ready(Ok(())) => break,
+                Poll::Ready(Err(e)) => return Err(("sockets:send-failed".into(), format!("final flush: {e:?}; {}", describe(&got)))),
+                Poll::Pending => take(&mut peer, &mut got, if drain == 0 { usize::MAX } else { drain }),
             }
         }
         drop(fut);
@@ -706,11 +728,35 @@ fn raw_wire_with<R: Rt>(sizes: &[usize], drain: usize, small: bool) -> Result<u6
     Ok(got.len() as u64)
 }
 
-pub fn raw_wire_case(rt: RtKind, sizes: &[usize], drain: usize, small: bool) -> Result<u64, (String, String)> {
+pub fn raw_wire_case(rt: RtKind, sizes: &[usize], drain: usize, small: bool, abandon: Option<(usize, usize)>) -> Result<u64, (String, String)> {
     match rt {
-        RtKind::Tokio => raw_wire_with::<TokioRt>(sizes, drain, small),
-        RtKind::Smol => raw_wire_with::<SmolRt>(sizes, drain, small),
+        RtKind::Tokio => raw_wire_with::<TokioRt>(sizes, drain, small, abandon),
+        RtKind::Smol => raw_wire_with::<SmolRt>(sizes, drain, small, abandon),
     }
+}
+
+/// Cases with one abandoned send: (runtime, sizes, drain, small buffers, (message, pending poll)).
+pub fn raw_wire_abandon_cases(thorough: bool) -> Vec<(RtKind, Vec<usize>, usize, bool, (usize, usize))> {
+    let seqs: Vec<Vec<usize>> = if thorough {
+        vec![vec![70_000, 300], vec![150_000, 300], vec![150_000, 70_000], vec![300, 150_000, 300], vec![70_000, 70_000, 300], vec![150_000, 300, 9_000]]
+    } else {
+        vec![vec![70_000, 300], vec![150_000, 300], vec![300, 70_000, 300]]
+    };
+    let mut v = Vec::new();
+    for rt in [RtKind::Tokio, RtKind::Smol] {
+        for s in &seqs {
+            for d in [0usize, 4096, usize::MAX] {
+                for small in [true, false] {
+                    for m in 0..s.len() {
+                        for k in [1usize, 2, 4] {
+                            v.push((rt, s.clone(), d, small, (m, k)));
+                        }
+                    }
+                }
+            }
+        }
+    }
+    v
 }
 
 /// (runtime, sizes, drain, small buffers) for all size sequences of length 1..=max_msgs.
